@@ -352,6 +352,15 @@ def analyse(k, be, prog, layout, hdr, tier, traps, kidx):
     return res
 
 
+_JOB = {}
+
+
+def _job(job):
+    i, be = job
+    J = _JOB
+    return analyse(J["ks"][i], be, J["progs"][be], J["layout"], J["hdr"], J["tier"], J["traps"], i)
+
+
 def run(tier):
     """-> dict for vsym/checks/c09.py: verdicts, counts, samples, violations (with keys), assumptions"""
     t0 = time.time()
@@ -368,15 +377,30 @@ def run(tier):
     with open(src, "w") as f:
         f.write(source(ks))
     progs = dict(zip(build.BACKENDS, build.compile_all([(src, be) for be in build.BACKENDS])))
+    _JOB.update(ks=ks, progs=progs, layout=layout, hdr=hdr, tier=tier, traps=traps)
+    from ..x64 import par
+    jobs = [(i, be) for i in range(len(ks)) for be in build.BACKENDS]
     results = []
-    for i, k in enumerate(ks):
-        for be in build.BACKENDS:
-            results.append(analyse(k, be, progs[be], layout, hdr, tier, traps, i))
+    for (i, be), (st, r) in zip(jobs, par.run_jobs(_job, jobs)):
+        if st == "err":
+            raise Inconclusive("worker failed for %s/%s: %s" % (ks[i]["name"], be, r))
+        results.append(r)
     violations, samples, unsupported, inconclusive = [], [], [], []
     nq = und = 0
     for r in results:
+        for v in r["violations"] if r["status"] == "unsupported" else []:
+            v = dict(v)
+            v["replay"] = dict(v["replay"], source=source(ks), kernel=r["kernel"], backend=r["backend"])
+            violations.append(v)
         if r["status"] == "unsupported":
-            unsupported.append("%s/%s: %s" % (r["kernel"], r["backend"], r.get("reason")))
+            # a kernel whose functional defect is already reproduced is not "unsupported": the
+            # step analysis merely cannot continue (e.g. the cell is accessed with the wrong width)
+            if r["violations"]:
+                nq += len(r["queries"])
+                samples.append({"kernel": r["kernel"], "backend": r["backend"], "queries": r["queries"],
+                                "notes": ["step analysis stopped: " + str(r.get("reason"))]})
+            else:
+                unsupported.append("%s/%s: %s" % (r["kernel"], r["backend"], r.get("reason")))
             continue
         if r["status"] == "inconclusive":
             inconclusive.append("%s/%s: %s" % (r["kernel"], r["backend"], r.get("reason")))
